@@ -784,6 +784,34 @@ func modeClient(c *Ctx) {
 		canonParams := c.genParams(&Gen{Rng: c.Rng, Doc: c.Doc}, op, nil)
 		_ = zp
 		for _, ri := range impls {
+			if ri.Doc == nil && !ri.Ptr {
+				// a value the handler can return, but which writes a status the operation
+				// does not document (C02 reports that): the caller must at least not be
+				// handed an error or another documented kind for it
+				var raw string
+				v := c.fillResponse(&Gen{Rng: c.Rng, Doc: c.Doc}, ri, &raw)
+				if f := v.FieldByName("Code"); !f.IsValid() {
+					e.next = v
+					t.stub = nil
+					e.ranKey = ""
+					res, err, pv := callClient(cl, op, canonParams)
+					c.Stat("client_responses", 1)
+					in := fmt.Sprintf("%s <- %s %s", op.Key, ri.T.Name(), trunc(dumpValue(v), 300))
+					got := res
+					for got.IsValid() && got.Kind() == reflect.Interface {
+						got = got.Elem()
+					}
+					switch {
+					case e.ranKey != "" && e.ranKey != op.Key:
+					case pv != nil:
+						c.Viol("panic", "client call panicked: "+firstLine(fmt.Sprint(pv)), in, nil, nil)
+					case err != nil:
+						c.Viol("response-error", "the client returned an error for a documented response", in, "value of kind "+ri.T.Name(), err.Error())
+					case got.IsValid() && got.Type() != ri.T:
+						c.Viol("response-kind", "the client returned another response kind than the handler sent", in, ri.T.Name(), got.Type().Name())
+					}
+				}
+			}
 			if ri.Doc == nil || ri.Ptr {
 				continue
 			}
